@@ -6,8 +6,11 @@ import (
 	"fmt"
 	"os"
 	"path/filepath"
+	"reflect"
 	"testing"
 
+	"github.com/z7zmey/php-parser/pkg/ast"
+	"github.com/z7zmey/php-parser/pkg/token"
 	"pgregory.net/rapid"
 
 	"verif/astx"
@@ -51,15 +54,38 @@ func checkOne(src []byte, v px.Ver) (string, string, []byte) {
 	if re.Panic != "" || len(re.Errs) > 0 || astx.IsNil(re.Root) {
 		return "formatted-rejected", fmt.Sprintf("[%s] the formatted text does not parse: %s%s\nformatted: %q", v, re.Panic, px.ErrString(re.Errs), f1), f1
 	}
+	braceCloseTag := false // the open finding formatter-brace-close-tag applies to this program and was tolerated
 	if d := astx.Equal(re.Root, orig.Root, astx.Structure); d != "" {
-		return "structure-changed", fmt.Sprintf("[%s] formatting changed the program (reparsed formatted text vs original): %s\nformatted: %q", v, d, f1), f1
+		// open finding formatter-brace-close-tag: the brace form of an alternative-syntax statement has no
+		// terminator a following close tag could merge into, so "endwhile ?>" becomes "}?>" and the "?>"
+		// an empty statement of its own. Tolerated only for programs with that shape, and only when the
+		// two trees are equal once stand-alone close-tag statements are left out; anything else the
+		// formatter does to such a program (text that does not parse, HTML moved into a body, ...) is
+		// still a violation
+		if hasBraceCloseTagShape(orig.Root) && astx.Equal(stripCloseTagNops(re.Root), stripCloseTagNops(orig.Root), astx.Structure) == "" && harness.KnownSeen("formatter-brace-close-tag") {
+			harness.Excluded("tolerated:formatter-brace-close-tag")
+			braceCloseTag = true
+		} else {
+			return "structure-changed", fmt.Sprintf("[%s] formatting changed the program (reparsed formatted text vs original): %s\nformatted: %q", v, d, f1), f1
+		}
 	}
 	f2, pm, ok := format(f1, v)
 	if pm != "" {
 		return "formatter-panic", fmt.Sprintf("[%s] the formatter panicked on its own output: %s\nformatted: %q", v, pm, f1), f1
 	}
 	if ok && !bytes.Equal(f1, f2) {
+		// same finding: "}?>x" is re-formatted to "};?>x" (the stand-alone close tag is now a statement)
+		if (braceCloseTag || hasBraceCloseTagShape(orig.Root)) && harness.FindingOpen("formatter-brace-close-tag") {
+			if r2 := px.Parse(f2, v, true); r2.Panic == "" && len(r2.Errs) == 0 && !astx.IsNil(r2.Root) &&
+				astx.Equal(stripCloseTagNops(r2.Root), stripCloseTagNops(orig.Root), astx.Structure) == "" && harness.KnownSeen("formatter-brace-close-tag") {
+				harness.Excluded("tolerated:formatter-brace-close-tag")
+				return "", "", nil // no canonical text to compare for this program
+			}
+		}
 		return "not-idempotent", fmt.Sprintf("[%s] formatting formatted code changes it again:\nonce:  %q\ntwice: %q", v, f1, f2), f1
+	}
+	if braceCloseTag {
+		return "", "", nil
 	}
 	return "", "", f1
 }
@@ -75,9 +101,72 @@ func options(v px.Ver) phpgen.Options {
 }
 
 // switches maps an open formatter finding to the generator option that keeps its trigger out.
+// (formatter-brace-close-tag is not switched off in the generator: its programs are generated and the
+// known failure mode alone is tolerated in checkOne, so that other defects on the same shapes —
+// alternative syntax or "}" followed by a close tag and inline HTML — are still found.)
 var switches = map[string]func(*phpgen.Options){
-	"formatter-brace-close-tag": func(o *phpgen.Options) { o.NoAltCloseTag = true },
-	"formatter-dangling-else":   func(o *phpgen.Options) { o.BraceAltIfBeforeElse = true },
+	"formatter-dangling-else": func(o *phpgen.Options) { o.BraceAltIfBeforeElse = true },
+}
+
+func isCloseTagTok(t *token.Token) bool {
+	return t != nil && bytes.Contains(t.Value, []byte("?>"))
+}
+
+// hasBraceCloseTagShape: the program has a statement that the formatter writes with a closing brace
+// and that is followed by a close tag — an alternative-syntax statement terminated by "?>" / "; ?>",
+// or a stand-alone "?>" statement (which follows a "}" or ":" in the source).
+func hasBraceCloseTagShape(root ast.Vertex) bool {
+	found := false
+	astx.Walk(root, func(n ast.Vertex, _ string) bool {
+		if nop, ok := n.(*ast.StmtNop); ok && isCloseTagTok(nop.SemiColonTkn) {
+			found = true
+		}
+		if s := astx.SchemaOf(n); s != nil {
+			rv := reflect.ValueOf(n).Elem()
+			colon, semi := rv.FieldByName("ColonTkn"), rv.FieldByName("SemiColonTkn")
+			if colon.IsValid() && semi.IsValid() {
+				c, _ := colon.Interface().(*token.Token)
+				sc, _ := semi.Interface().(*token.Token)
+				if c != nil && isCloseTagTok(sc) {
+					found = true
+				}
+			}
+		}
+		return !found
+	})
+	return found
+}
+
+// stripCloseTagNops returns a copy of the tree without the empty statements in statement lists.
+func stripCloseTagNops(root ast.Vertex) ast.Vertex {
+	c := astx.Clone(root)
+	astx.Walk(c, func(n ast.Vertex, _ string) bool {
+		s := astx.SchemaOf(n)
+		if s == nil {
+			return true
+		}
+		rv := reflect.ValueOf(n).Elem()
+		for _, f := range s.Fields {
+			if f.Class != astx.FChildList {
+				continue
+			}
+			list := rv.Field(f.Index).Interface().([]ast.Vertex)
+			var kept []ast.Vertex
+			for _, ch := range list {
+				if _, ok := ch.(*ast.StmtNop); ok {
+					// a stand-alone close tag that is not followed by HTML comes back as a bare ";", so
+					// on this (tolerance) path empty statements in lists are left out altogether
+					continue
+				}
+				kept = append(kept, ch)
+			}
+			if len(kept) != len(list) {
+				rv.Field(f.Index).Set(reflect.ValueOf(kept))
+			}
+		}
+		return true
+	})
+	return c
 }
 
 func TestGeneratedPrograms(t *testing.T) {
